@@ -314,9 +314,20 @@ void op_crc(const unsigned char *p, size_t n) {
 }
 
 /* ---------------------------------------------------------------- oracle sweeps */
+/* every fourth sweep call hands the survivors over at addresses that are not 16-byte aligned (the library
+   then works on private aligned copies) */
+static char **misplace(char **fr, int n, uint64_t flen, char ***bases_out) {
+    char **bases = malloc(sizeof(char *) * (n ? n : 1)), **out = malloc(sizeof(char *) * (n ? n : 1));
+    for (int i = 0; i < n; i++) { bases[i] = malloc(flen + 32); out[i] = bases[i] + 1 + (int)rnd(15); if (((uintptr_t)out[i] & 15) == 0) out[i]++; memcpy(out[i], fr[i], flen); }
+    *bases_out = bases; return out;
+}
+static void unmisplace(char **out, char **bases, int n) { for (int i = 0; i < n; i++) free(bases[i]); free(bases); free(out); }
+
 int sweep_dec(stripe_t *s, uint64_t gone, int force, int shuffle_order, int mode, const char *prop) {
-    char *fr[80]; int n = 0;
+    char *fr0[80]; char **fr = fr0; int n = 0;
     for (int i = 0; i < s->n; i++) if (!((gone >> i) & 1)) fr[n++] = s->all[i];
+    char **bases = NULL; int mis = s->flen < 70000 && rnd(4) == 0;
+    if (mis) fr = misplace(fr0, n, s->flen, &bases);
     if (shuffle_order) for (int i = n - 1; i > 0; i--) { int j = (int)rnd(i + 1); char *t = fr[i]; fr[i] = fr[j]; fr[j] = t; }
     char *od = NULL; uint64_t ol = 0;
     int rc = liberasurecode_decode(s->desc, fr, n, s->flen, force, &od, &ol);
@@ -325,16 +336,19 @@ int sweep_dec(stripe_t *s, uint64_t gone, int force, int shuffle_order, int mode
         v = (ol == s->len && (ol == 0 || !memcmp(od, s->data, ol))) ? 0 : 1;
         liberasurecode_decode_cleanup(s->desc, od);
     }
+    if (mis) unmisplace(fr, bases, n);
     if (v == 1 || (v != 0 && mode == 0))
-        oracle_fail(prop, "decode without mask %llx (%s order, force %d) gave %s%d: be=%d (%d,%d,%d) len=%llu ct=%d",
-                    (unsigned long long)gone, shuffle_order ? "shuffled" : "index", force, v == 1 ? "wrong bytes " : "error ", v,
+        oracle_fail(prop, "decode without mask %llx (%s order, %s buffers, force %d) gave %s%d: be=%d (%d,%d,%d) len=%llu ct=%d",
+                    (unsigned long long)gone, shuffle_order ? "shuffled" : "index", mis ? "unaligned" : "aligned", force, v == 1 ? "wrong bytes " : "error ", v,
                     s->c.be, s->c.k, s->c.m, s->c.hd, (unsigned long long)s->len, s->c.ct);
     return v;
 }
 
 int sweep_rec(stripe_t *s, uint64_t gone, int dest, int mode, const char *prop) {
-    char *fr[80]; int n = 0;
+    char *fr0[80]; char **fr = fr0; int n = 0;
     for (int i = 0; i < s->n; i++) if (!((gone >> i) & 1)) fr[n++] = s->all[i];
+    char **bases = NULL; int mis = s->flen < 70000 && rnd(4) == 0;
+    if (mis) fr = misplace(fr0, n, s->flen, &bases);
     char *of = malloc(s->flen + 16); memset(of, 0xA5, s->flen + 16);
     int rc = liberasurecode_reconstruct_fragment(s->desc, fr, n, s->flen, dest, of);
     int v = rc;
@@ -343,6 +357,7 @@ int sweep_rec(stripe_t *s, uint64_t gone, int dest, int mode, const char *prop) 
         for (int i = 0; i < 16; i++) if ((unsigned char)of[s->flen + i] != 0xA5) v = 1;
     }
     free(of);
+    if (mis) unmisplace(fr, bases, n);
     if (v == 1 || (v != 0 && mode == 0))
         oracle_fail(prop, "reconstruct of %d without mask %llx gave %s%d: be=%d (%d,%d,%d) len=%llu ct=%d",
                     dest, (unsigned long long)gone, v == 1 ? "different bytes " : "error ", v,
